@@ -432,6 +432,8 @@ struct StreamWorld : World {
                 size_t n = pick_len(r, rate, true);
                 pl.add("absorb", {slot, (int64_t)n, (int64_t)((r.below(3) == 0 ? 1 : 0) | (r.chance(1, 2) ? 2 : 0))}); // bit 0 in place, bit 1 null pointer for an empty chunk
                 o.absorbed += n;
+            } else if (c < 43 && (o.kind == XOF || o.kind == XOFA) && o.phase == 0) {
+                pl.add("pad", {slot});
             } else if (c < 75 && !is_aead(o.kind)) {
                 size_t n = (o.kind == HKDF || o.kind == HKDFA) && hkdf_long ? (r.chance(1, 2) ? 1000 + r.below(3000) : pick_len(r, 32, true))
                                                                             : pick_len(r, o.kind == PRF ? 16 : rate, true);
@@ -624,6 +626,19 @@ struct StreamWorld : World {
         if (c.record && (!ib.intact() || chunk != ib.copy())) c.run->violation("C12", "stray_write", std::string(kind_name[o.p.kind]) + ".absorb", "input buffer or canary modified");
         if (c.record) c.run->state(fmt("abs/%d/%d/%u/%s", o.p.kind, o.p.variant, (unsigned)(o.in.size() % rate), n == 0 ? "0" : n < rate ? "<" : n == rate ? "=" : ">"));
         o.in.insert(o.in.end(), chunk.begin(), chunk.end());
+    }
+
+    // ascon_xof_pad / ascon_xofa_pad while absorbing: documented as "absorbs enough zeroes to pad the input to the next
+    // multiple of the block rate" - so the session must continue exactly as if those zero bytes had been absorbed
+    static void do_pad(Ctx &c, const Op &op)
+    {
+        int slot = (int)(op.u(0) % NSLOTS);
+        Obj &o = c.obj[slot];
+        if (!o.live || o.phase != 0 || (o.p.kind != XOF && o.p.kind != XOFA)) return;
+        AnyState *st = &c.slots[slot];
+        if (o.p.kind == XOF) ascon_xof_pad(&st->xof); else ascon_xofa_pad(&st->xofa);
+        while (o.in.size() % 8 != 0) o.in.push_back(0);
+        if (c.record) { c.run->fault("obj.pad_while_absorbing"); c.run->state(fmt("pad/%d/%d", o.p.kind, o.p.variant)); }
     }
 
     static void do_squeeze(Ctx &c, const Op &op)
@@ -957,6 +972,7 @@ struct StreamWorld : World {
             else if (op.name == "perm") do_perm(c, op);
             else if (op.name == "sapi") do_sapi(c, op);
             else if (op.name == "oneshot") do_oneshot(c, op);
+            else if (op.name == "pad") do_pad(c, op);
             else if (op.name == "huge") do_huge(c, op);
             else if (op.name == "next") do_next(c, op);
         }
